@@ -1510,3 +1510,15 @@ def _range(ex, args, kwargs, node):
     hi = args[-1].t
     n = z3.If(hi - lo >= 0, hi - lo, 0)
     return VSeq(z3.simplify(n), lambda i: VInt(z3.simplify(lo + i)))
+
+
+@fn("pickle.dumps", "json.dumps", tb="TB-io")
+def _dumps(ex, args, kwargs, node):
+    _may_raise(ex, node, "Exception")
+    return VOpaque("bytes")
+
+
+@meth("path", "write_bytes", "write_text", tb="TB-io")
+def _pwrite(ex, p, args, kwargs, node):
+    _may_raise(ex, node, "OSError")
+    return VInt(ex.st.fresh_const("written", L.Int))
